@@ -503,7 +503,9 @@ double Dawson_Integral(double x)
 
 double Erfi(double x)
 {
-	return 2.0 / std::sqrt(M_PI) * std::exp(x * x) * Dawson_Integral(x);
+	// exp(x^2) is applied in two halves: it overflows on its own before erfi(x) does.
+	double h = std::exp(0.5 * x * x);
+	return 2.0 / std::sqrt(M_PI) * h * Dawson_Integral(x) * h;
 }
 
 double Inv_Erf(double p)
